@@ -9,7 +9,7 @@ import (
 // R09f — a quoted literal is an argument even when it is empty. In statement
 // position the quote arm of parseStatement parses the literal, appends its runes to
 // the current parameter and marks the parameter as "may be zero length"; without
-// that mark nextParameter drops an empty parameter, so `cmd '' x` would pass [x].
+// that mark nextParameter drops an empty parameter, so `cmd ” x` would pass [x].
 // Every way through the arm other than an error return must do all three.
 func init() {
 	extend("C09", func(c *Ctx) {
@@ -20,26 +20,77 @@ func init() {
 		}
 		info := pk.TypesInfo
 		n := 0
+		var pendingFall []string
+		covered := map[string]bool{}
 		ast.Inspect(fd.Body, func(nd ast.Node) bool {
 			cc, ok := nd.(*ast.CaseClause)
 			if !ok {
 				return true
 			}
-			isQuote := false
+			// quote runes this arm is entered for: its own case values plus those of arms directly
+			// above that consist of a fallthrough (`case '\'': fallthrough; case '"': …`)
+			quotes := pendingFall
+			pendingFall = nil
 			for _, e := range cc.List {
 				if tv := info.Types[e]; tv.Value != nil {
 					if v := tv.Value.ExactString(); v == "39" || v == "34" { // ' and "
-						isQuote = true
+						quotes = append(quotes, v)
 					}
 				}
 			}
-			if !isQuote {
+			if len(quotes) == 0 {
 				return true
 			}
+			if len(cc.Body) == 1 {
+				if br, ok := cc.Body[0].(*ast.BranchStmt); ok && br.Tok == token.FALLTHROUGH {
+					pendingFall = quotes
+					return true
+				}
+			}
 			// only the arm of the main rune switch: it calls parseString
+			defs := localDefs(info, cc)
 			var valueObj types.Object
+			// isValue: the parsed literal itself or a local that is only ever given it (`lit := value`)
+			isValue := func(e ast.Expr) bool {
+				if valueObj == nil {
+					return false
+				}
+				id, ok := unparen(e).(*ast.Ident)
+				if !ok {
+					return false
+				}
+				if info.ObjectOf(id) == valueObj {
+					return true
+				}
+				r, ok := defs.resolve1(info, id).(*ast.Ident)
+				return ok && info.ObjectOf(r) == valueObj
+			}
+			// isAppend: appendToParam(tree, value...) or the helper's body written out,
+			// X.paramTemp = append(X.paramTemp, value...)
+			isAppend := func(s ast.Stmt) bool {
+				switch x := s.(type) {
+				case *ast.ExprStmt:
+					if call, ok := unparen(x.X).(*ast.CallExpr); ok {
+						if fn, ok := callee(info, call).(*types.Func); ok && fn.Name() == "appendToParam" && len(call.Args) == 2 && call.Ellipsis != token.NoPos {
+							return isValue(call.Args[1])
+						}
+					}
+				case *ast.AssignStmt:
+					if x.Tok == token.ASSIGN && len(x.Lhs) == 1 && len(x.Rhs) == 1 && isField(info, x.Lhs[0], c10StatementT, "paramTemp") {
+						if call, ok := isBuiltinCall(info, x.Rhs[0], "append"); ok && len(call.Args) == 2 && call.Ellipsis != token.NoPos &&
+							isField(info, call.Args[0], c10StatementT, "paramTemp") && c.sameExpr(call.Args[0], x.Lhs[0]) {
+							return isValue(call.Args[1])
+						}
+					}
+				}
+				return false
+			}
 			parseIdx, appendIdx, markIdx := -1, -1, -1
 			for i, s := range cc.Body {
+				if isAppend(s) {
+					appendIdx = i
+					continue
+				}
 				switch x := s.(type) {
 				case *ast.AssignStmt:
 					if len(x.Rhs) == 1 {
@@ -51,18 +102,23 @@ func init() {
 							}
 						}
 					}
-					if len(x.Lhs) == 1 && len(x.Rhs) == 1 {
-						if se, ok := unparen(x.Lhs[0]).(*ast.SelectorExpr); ok && se.Sel.Name == "canHaveZeroLenStr" {
-							if tv := info.Types[x.Rhs[0]]; tv.Value != nil && tv.Value.ExactString() == "true" {
-								markIdx = i
-							}
+					if len(x.Lhs) == 1 && len(x.Rhs) == 1 && isField(info, x.Lhs[0], c10StatementT, "canHaveZeroLenStr") {
+						if b, ok := constBool(info, x.Rhs[0]); ok && b {
+							markIdx = i
 						}
 					}
-				case *ast.ExprStmt:
-					if call, ok := unparen(x.X).(*ast.CallExpr); ok {
-						if fn, ok := callee(info, call).(*types.Func); ok && fn.Name() == "appendToParam" && len(call.Args) == 2 && call.Ellipsis != token.NoPos {
-							if id, ok := unparen(call.Args[1]).(*ast.Ident); ok && valueObj != nil && info.ObjectOf(id) == valueObj {
-								appendIdx = i
+				case *ast.IfStmt:
+					// `if len(value) > 0 { append }`: the only value not appended is the empty one,
+					// and appending no runes changes nothing
+					if x.Init == nil && x.Else == nil {
+						if lhs, op, k, ok := cmpNorm(info, x.Cond); ok {
+							if call, isLen := isBuiltinCall(info, lhs, "len"); isLen && len(call.Args) == 1 && isValue(call.Args[0]) &&
+								samePredOnRange(intPred(op, k), func(v int64) bool { return v > 0 }, 0, 4) {
+								for _, b := range x.Body.List {
+									if isAppend(b) {
+										appendIdx = i
+									}
+								}
 							}
 						}
 					}
@@ -73,6 +129,9 @@ func init() {
 			}
 			n++
 			key := "parseStatement:quote-arm#" + itoa(n)
+			for _, q := range quotes {
+				covered[q] = true
+			}
 			if appendIdx < parseIdx || markIdx < 0 {
 				c.Viol("R09f", key, cc.Pos(), "the quote arm parses the literal (statement %d of the arm) but does not, at its top level, append the value (found at %d) and set canHaveZeroLenStr = true (found at %d): an empty literal `''` is dropped from the argument list", parseIdx+1, appendIdx+1, markIdx+1)
 				return true
@@ -119,6 +178,9 @@ func init() {
 			}
 			return true
 		})
+		if n > 0 {
+			c.Check(covered["39"] && covered["34"], "R09f", "parseStatement:quote-arm:both-quotes", fd.Pos(), "both quote runes reach an arm that parses, appends and marks the literal (single quote: %v, double quote: %v)", covered["39"], covered["34"])
+		}
 		c.MinCount("R09f", "quote arms of parseStatement", n, 1)
 	})
 }
